@@ -525,8 +525,35 @@ def check_packets(t: Tally):
     mid2.raw_data.read_as_bytes(16)
     pkts.append(mid2)
     pkts.append(CCSDSPacket())
+    # a packet shorter than its definition: integer reads run past the end, so the cursor ends up BEYOND the data (that is how such a
+    # packet is recognised as bad); and cursors placed by hand at and beyond the end
+    from mc import framing
+    import warnings as _w
+    with _w.catch_warnings():
+        _w.simplefilter("ignore")
+        from mc.checks.c14 import chain_docs
+        short = load_doc(chain_docs()[0][1]).parse_ccsds_packet(CCSDSPacket(raw_data=framing.mk_packet(bytes.fromhex("0102"), apid=1, seqcount=21)))
+        assert short.raw_data.pos > 8 * len(short.raw_data), "harness: expected an over-read packet"
+    pkts.append(short)
+    at_end = CCSDSPacket(raw_data=pal[1], X=1)
+    at_end.raw_data.pos = 8 * len(pal[1])
+    pkts.append(at_end)
+    beyond = CCSDSPacket(raw_data=pal[0])
+    beyond.raw_data.pos = 8 * len(pal[0]) + 19
+    pkts.append(beyond)
     copies = [("copy", copy.copy), ("deepcopy", copy.deepcopy)] + [(f"pickle{pr}", lambda x, pr=pr: pickle.loads(pickle.dumps(x, protocol=pr)))
                                                                     for pr in range(0, pickle.HIGHEST_PROTOCOL + 1)]
+    # the raw data objects on their own, too
+    for i, p in enumerate(list(pkts)):
+        rd = p.raw_data
+        want_rd = (bytes(rd), rd.pos, type(rd).__name__)
+        for cname, cf in copies:
+            r = attempt(lambda: cf(rd))
+            t.evals += 1
+            if r[0] != "ok" or (bytes(r[1]), getattr(r[1], "pos", None), type(r[1]).__name__) != want_rd:
+                t.violation({"kind": "packet-copy-differs", "copy": cname.rstrip("012345"), "object": "raw_data"}, {"packet_index": i, "copy": cname, "object": "raw_data"},
+                            expected=(want_rd[0].hex(), want_rd[1], want_rd[2]),
+                            observed=r[1] if r[0] != "ok" else (bytes(r[1]).hex(), getattr(r[1], "pos", None), type(r[1]).__name__))
     for i, p in enumerate(pkts):
         want = (items_of(p), bytes(p.raw_data), p.raw_data.pos, type(p).__name__, type(p.raw_data).__name__, list(p.header), list(p.user_data))
         for cname, cf in copies:
@@ -604,8 +631,8 @@ def run(ctx):
                   f"{len(value_sets(ctx.tier)[2])} strs, {len(value_sets(ctx.tier)[3])} bytes, 2 bools "
                   f"x {len(RAWS)} raw values (omitted and every falsy kind) x ~60-110 operations each + 14-46 standard-library/numpy consumers (json, struct, math, Fraction, Decimal, %-formatting, re, hashing across "
                   "parameter/plain keys, ...) x 8 copies; every ordered pair of numeric values (int, float, bool classes mixed) x 25 binary operations and every pair of "
-                  "str / bytes values x 17 operations with both operands parameter values; 5 container shapes (shared references, dict keys, sets, nesting) x 8 copies; 6 packets (parsed clean / flagged, cursor mid-way, "
-                  "cached header properties, empty) x 8 copies"),
+                  "str / bytes values x 17 operations with both operands parameter values; 5 container shapes (shared references, dict keys, sets, nesting) x 8 copies; 9 packets and their raw data objects (parsed clean / flagged, shorter than the definition so that the cursor "
+                  "lies beyond the data, cursor mid-way / at the end / beyond the end, cached header properties, empty) x 8 copies"),
         "rule": "one evaluation = one operation or copy compared with the built-in; distinct non-trivial = distinct (class, value, raw) triples and packet copies",
     }
     return {"level": LEVEL, "tally": t, "coverage": coverage,
